@@ -612,11 +612,13 @@ def vfuncKeys (n : Node) : List Str :=
     | none => [])
   ++ n.methods.map (·.symbol) ++ (walkFuncs n).map (·.symbol)
 
-theorem vfuncsOf_congr {b b' : Blocks} (n : Node) (fd : Str → Option Str) (h : ∀ k ∈ vfuncKeys n, b k = b' k) :
-    vfuncsOf b n fd = vfuncsOf b' n fd := by
-  unfold vfuncsOf
-  have h1 : slotBlocks b n = slotBlocks b' n := by
-    unfold slotBlocks
+/-- everything the two virtual-method phases (`vfuncsPairCore`, `vfuncsVirtualCore`) are handed by
+    `annotateAll` is looked up through `vfuncKeys` -/
+theorem vfuncInputs_congr {b b' : Blocks} (n : Node) (h : ∀ k ∈ vfuncKeys n, b k = b' k) :
+    slotBlocks b n = slotBlocks b' n ∧ withBlocks b n.methods = withBlocks b' n.methods
+    ∧ withBlocks b (walkFuncs n) = withBlocks b' (walkFuncs n) := by
+  refine ⟨?_, ?_, ?_⟩
+  · unfold slotBlocks
     cases hs : n.structAnn with
     | none => rfl
     | some sa =>
@@ -624,10 +626,13 @@ theorem vfuncsOf_congr {b b' : Blocks} (n : Node) (fd : Str → Option Str) (h :
       apply List.map_congr_left
       intro v hv
       rw [h (keyVfunc sa v.name) (by simp only [vfuncKeys, hs, List.mem_append, List.mem_map]; left; left; exact ⟨v, hv, rfl⟩)]
-  have h2 : withBlocks b n.methods = withBlocks b' n.methods :=
-    withBlocks_congr (fun f hf => h _ (by simp only [vfuncKeys, List.mem_append, List.mem_map]; left; right; exact ⟨f, hf, rfl⟩))
-  have h3 : withBlocks b (walkFuncs n) = withBlocks b' (walkFuncs n) :=
-    withBlocks_congr (fun f hf => h _ (by simp only [vfuncKeys, List.mem_append, List.mem_map]; right; exact ⟨f, hf, rfl⟩))
+  · exact withBlocks_congr (fun f hf => h _ (by simp only [vfuncKeys, List.mem_append, List.mem_map]; left; right; exact ⟨f, hf, rfl⟩))
+  · exact withBlocks_congr (fun f hf => h _ (by simp only [vfuncKeys, List.mem_append, List.mem_map]; right; exact ⟨f, hf, rfl⟩))
+
+theorem vfuncsOf_congr {b b' : Blocks} (n : Node) (fd : Str → Option Str) (h : ∀ k ∈ vfuncKeys n, b k = b' k) :
+    vfuncsOf b n fd = vfuncsOf b' n fd := by
+  obtain ⟨h1, h2, h3⟩ := vfuncInputs_congr n h
+  unfold vfuncsOf
   rw [h1, h2, h3]
 
 theorem renameReqs_congr {b b' : Blocks} {fs : List Method} (h : ∀ f ∈ fs, b f.symbol = b' f.symbol) :
